@@ -6,6 +6,8 @@ import (
 	"strings"
 
 	"pgregory.net/rapid"
+
+	"github.com/dolthub/go-mysql-server/vh/internal/kf"
 )
 
 // stmt is one generated statement. SQL is sent by the client; Twin is run in process (it
@@ -26,9 +28,6 @@ type stmt struct {
 	// NullCmpCols: result columns that are operands of a >= / <= comparison in the WHERE
 	// clause of a value-row scan (region of finding C35-valuerow-null-cmp).
 	NullCmpCols []int
-	// AfterFailed: the previous statement on this connection failed (region of finding
-	// C35-found-rows-after-failed-select for the per-session counters).
-	AfterFailed bool
 	// Multi: the statements sent together in one COM_QUERY (multi-statement mode); SQL is
 	// their concatenation.
 	Multi []*stmt
@@ -306,6 +305,7 @@ func (g *genCtx) selValueRow(rt *rapid.T) *stmt {
 	q := fmt.Sprintf("SELECT * FROM v.t%d", n)
 	kind := "sel-valuerow"
 	ordered := false
+	var nullCmp []int
 	switch weighted(rt, "vrKind", 4, 1, 1, 2, 1) {
 	case 1: // projection + sort on top: default pipeline over the same table
 		q = fmt.Sprintf("SELECT id, s, f, dt FROM v.t%d ORDER BY id DESC", n)
@@ -320,11 +320,34 @@ func (g *genCtx) selValueRow(rt *rapid.T) *stmt {
 		kind = "sel-valuerow-cmp"
 		n = m
 	case 4:
-		q = fmt.Sprintf("SELECT * FROM v.t%d WHERE %s", n, pickStr(rt, "vrCmp", []string{"a < u", "t8 < id", "f > a", "y > 2000", "u > 5", "100 <= id", "id >= 7"}))
+		cmps := vrCmps
+		if kf.Listed(kfValueRowNullCmp) {
+			// >= / <= on nullable columns is the region of the listed finding: left out
+			cmps = cmps[:vrCmpsNotNull]
+		}
+		c := cmps[uni(rt, "vrCmp", len(cmps))]
+		q = fmt.Sprintf("SELECT * FROM v.t%d WHERE %s", n, c.cond)
 		kind = "sel-valuerow-cmp"
+		nullCmp = c.nullCols
 	}
-	return &stmt{Kind: kind, SQL: q, Twin: q, Binary: g.proto(rt), Ordered: ordered, Size: n}
+	return &stmt{Kind: kind, SQL: q, Twin: q, Binary: g.proto(rt), Ordered: ordered, Size: n, NullCmpCols: nullCmp}
 }
+
+// vrCmp is a numeric comparison evaluated on value rows; nullCols are the result columns of
+// v.t<n> (id a u f s x dt y t8) that are nullable operands of a >= / <= in it.
+type vrCmp struct {
+	cond     string
+	nullCols []int
+}
+
+// vrCmps: the first vrCmpsNotNull entries compare with < / > or involve only the NOT NULL
+// id; the others are >= / <= with a nullable operand (region of C35-valuerow-null-cmp).
+var vrCmps = []vrCmp{
+	{"a < u", nil}, {"t8 < id", nil}, {"f > a", nil}, {"y > 2000", nil}, {"u > 5", nil}, {"100 <= id", nil}, {"id >= 7", nil},
+	{"y >= 2000", []int{7}}, {"a <= u", []int{1, 2}}, {"3 >= t8", []int{8}}, {"f <= a", []int{3, 1}}, {"u >= 5", []int{2}}, {"t8 <= id", []int{8}},
+}
+
+const vrCmpsNotNull = 7
 
 var literalItems = []string{
 	"1", "-1", "0", "18446744073709551615", "-9223372036854775808", "1.50", "-0.000001", "1e0", "2.5e-3", "1e308",
